@@ -90,7 +90,11 @@ class ConstantFolder(ast.NodeTransformer):
 
     def visit_Call(self, node):
         self.generic_visit(node)
-        if isinstance(node.func, ast.Name) and node.func.id in self.builtin_funcs:
+        if (
+            isinstance(node.func, ast.Name)
+            and node.func.id in self.builtin_funcs
+            and not node.keywords
+        ):
 
             def arg_tr(arg):
                 if isinstance(arg, ast.Tuple) or isinstance(arg, ast.List):
